@@ -304,6 +304,52 @@ def rtdataReply (narrow : UInt64 → UInt32) (stack : Bytes) (addr tags : Bytes)
     Option AResult :=
   vmessage narrow (some stack) addr tags va
 
+/-! ### taking a packet apart completely (what a receiver does with the readers) -/
+
+/-- a packet taken apart: the bytes of a message, or the time tag and the packets of a bundle -/
+inductive Packet where
+  | msg (b : Bytes)
+  | bundle (tt : UInt64) (es : List Packet)
+
+/-- `for i in idx: decomp(rtosc_bundle_fetch(p,i), rtosc_bundle_size(p,i))` -/
+def elemsVia (f : Bytes → Nat → Rd Packet) (p : Bytes) : List Nat → Rd (List Packet)
+  | [] => .ok []
+  | i :: is =>
+    match bundleFetch p i, bundleSize p i with
+    | some (some off), some sz =>
+      match f (p.drop off) sz with
+      | .ok x =>
+        match elemsVia f p is with
+        | .ok xs => .ok (x :: xs)
+        | .oob => .oob
+        | .hang => .hang
+      | .oob => .oob
+      | .hang => .hang
+    | _, _ => .oob
+
+/-- The recursive decomposition of the packet of `size` bytes at the head of block `p`, the way
+    `harness/bundle.cpp` (and any receiver) does it: `rtosc_bundle_p`; for a bundle the time tag,
+    `rtosc_bundle_elements(p,size)` and for every index `rtosc_bundle_fetch/size`, recursively.
+    The first argument bounds the nesting depth followed. -/
+def decompose : Nat → Bytes → Nat → Rd Packet
+  | 0, _, _ => .hang
+  | d + 1, p, size =>
+    match bundleP p with
+    | none => .oob
+    | some false => if size ≤ p.length then .ok (.msg (p.take size)) else .oob
+    | some true =>
+      match bundleTimetag p with
+      | none => .oob
+      | some tt =>
+        match bundleElements p size with
+        | .oob => .oob
+        | .hang => .hang
+        | .ok n =>
+          match elemsVia (decompose d) p (List.range' 0 n) with
+          | .ok xs => .ok (.bundle tt xs)
+          | .oob => .oob
+          | .hang => .hang
+
 /-! ### Specification: what a bundle *is* -/
 
 /-- An OSC packet: a message, or a bundle of packets with a time tag. -/
@@ -330,6 +376,26 @@ def Elem.WF : Elem → Prop
 def Elems.WF : List Elem → Prop
   | [] => True
   | e :: es => Elem.WF e ∧ Elems.WF es
+end
+
+mutual
+/-- what a packet has to decompose into: its own structure, every message as its encoding -/
+def Elem.packet : Elem → Packet
+  | .msg m => .msg (Spec.encode m)
+  | .bundle tt es => .bundle tt (Elems.packets es)
+def Elems.packets : List Elem → List Packet
+  | [] => []
+  | e :: es => Elem.packet e :: Elems.packets es
+end
+
+mutual
+/-- nesting depth: 0 for a message, 1 for a bundle of messages, … -/
+def Elem.depth : Elem → Nat
+  | .msg _ => 0
+  | .bundle _ es => Elems.depth es + 1
+def Elems.depth : List Elem → Nat
+  | [] => 0
+  | e :: es => max (Elem.depth e) (Elems.depth es)
 end
 
 def Elem.isBundle : Elem → Bool
